@@ -646,6 +646,12 @@ func (fv *FV) ratModel(st *State, call *ast.CallExpr, name string, sel *ast.Sele
 		wb(r)
 		pso := fv.ss.Of(fv.info.TypeOf(call))
 		return []Term{ptrMk(pso, r)}
+	case "Sign":
+		// the sign of a rational is the sign of its numerator (denominators are positive)
+		r, _ := fv.ratRecv(st, sel.X)
+		st.assume(T(sx(">", sx("rden", r.S), "0"), SBool))
+		n := sx("rnum", r.S)
+		return []Term{T(sx("ite", sx(">", n, "0"), "1", sx("ite", sx("<", n, "0"), "(- 1)", "0")), SInt)}
 	case "IsInt":
 		r, _ := fv.ratRecv(st, sel.X)
 		st.assume(T(sx(">", sx("rden", r.S), "0"), SBool))
